@@ -248,6 +248,46 @@ func genTree09(rng *Rng, depth int, top bool) *c09Tree {
 		n = 1 + rng.Intn(3)
 	}
 	sas := []string{}
+	if rng.Chance(30) {
+		// an rbac group: accounts and well-formed bindings that designate them
+		na := 1 + rng.Intn(2)
+		used := map[string]bool{}
+		for i := 0; i < na; i++ {
+			nm := rng.Pick(c09Names)
+			if used[nm] {
+				continue
+			}
+			used[nm] = true
+			meta := gM("name", nm)
+			nsSlot(rng, meta)
+			t.Own = append(t.Own, c09Res{Kind: "ServiceAccount", Name: nm,
+				Yaml: gM("apiVersion", "v1", "kind", "ServiceAccount", "metadata", meta).yaml()})
+			sas = append(sas, nm)
+		}
+		nb := 1 + rng.Intn(2)
+		for i := 0; i < nb; i++ {
+			kind := rng.Pick([]string{"RoleBinding", "RoleBinding", "ClusterRoleBinding"})
+			meta := gM("name", fmt.Sprintf("bind%d", i))
+			if kind == "RoleBinding" {
+				nsSlot(rng, meta)
+			}
+			subj := &gnode{kind: 2}
+			for j := 0; j < 1+rng.Intn(2); j++ {
+				sj := gM("kind", "ServiceAccount", "name", rng.Pick(append([]string{"default"}, sas...)))
+				switch r := rng.Intn(100); {
+				case r < 40:
+				case r < 85:
+					sj.set("namespace", gT(rng.Pick(c09Namespaces)))
+				default:
+					sj.set("namespace", gT(`""`))
+				}
+				subj.vals = append(subj.vals, sj)
+			}
+			doc := gM("apiVersion", "rbac.authorization.k8s.io/v1", "kind", kind, "metadata", meta,
+				"roleRef", gM("apiGroup", "rbac.authorization.k8s.io", "kind", "ClusterRole", "name", "r"), "subjects", subj)
+			t.Own = append(t.Own, c09Res{Kind: kind, Name: fmt.Sprintf("bind%d", i), Yaml: doc.yaml()})
+		}
+	}
 	for i := 0; i < n; i++ {
 		// few names: collisions after the move are frequent enough, collisions before it stay rare
 		t.Own = append(t.Own, genRes09(rng, rng.Pick(c09Names), &sas))
@@ -525,6 +565,12 @@ func oracles09(r *Run, t *c09Tree, flat []flat09, bo build09) {
 			if k != "ServiceAccount" || !okn || nm == "" {
 				continue
 			}
+			if hasNs && sns == "" {
+				// `namespace: ""` / `namespace: null` on a subject is not a designation Kubernetes accepts; the
+				// name-reference lookup keys candidates by the literal namespace string and finds none
+				// (observed: such a subject keeps its empty namespace while the account moves). Outside the domain.
+				continue
+			}
 			// the designated account: same layer, same name, the subject names its namespace or none at all
 			var acct = -1
 			count := 0
@@ -705,7 +751,8 @@ func runBuild09Case(r *Run, t *c09Tree, toModel bool) {
 			r.Count("build_error", "namespace transformation produces ID conflict")
 		case strings.Contains(bo.msg, "already registered id"):
 			r.Count("build_error", "already registered id")
-		case strings.Contains(bo.msg, "namespace transformation failed") || strings.Contains(bo.msg, "role binding subject"):
+		case strings.Contains(bo.msg, "namespace transformation failed") || strings.Contains(bo.msg, "role binding subject") ||
+			strings.Contains(bo.msg, "namespace field specs must target scalar nodes"):
 			r.Count("build_error", "namespace filter error")
 		default:
 			r.Count("build_error", "other: "+firstN(bo.msg, 70))
@@ -723,7 +770,8 @@ func runBuild09Case(r *Run, t *c09Tree, toModel bool) {
 			return
 		}
 		if bo.cls == ClsErr && !strings.Contains(bo.msg, "ID conflict") && !strings.Contains(bo.msg, "already registered id") &&
-			!strings.Contains(bo.msg, "namespace transformation failed") && !strings.Contains(bo.msg, "role binding subject") {
+			!strings.Contains(bo.msg, "namespace transformation failed") && !strings.Contains(bo.msg, "role binding subject") &&
+			!strings.Contains(bo.msg, "namespace field specs must target scalar nodes") {
 			// an error raised after the namespace transformer (name references following the move)
 			r.Count("build_skipped", "error of a later stage: "+firstN(bo.msg, 50))
 			r.Meta.Skipped++
